@@ -15,6 +15,7 @@ package c06lib
 import (
 	"bufio"
 	"context"
+	"crypto/rand"
 	"encoding/binary"
 	"fmt"
 	"io"
@@ -35,7 +36,10 @@ import (
 	"example.com/scion-time/core/server"
 	"example.com/scion-time/core/timebase"
 	"example.com/scion-time/net/ntp"
+	"example.com/scion-time/net/nts"
 	"example.com/scion-time/net/ntske"
+	"example.com/scion-time/net/udp"
+	"golang.org/x/sys/unix"
 
 	"verifharness/lib"
 )
@@ -59,20 +63,43 @@ const (
 	slowBurst = "1540"
 )
 
-type sysClock struct{}
+// the clock the listeners read: the system clock, unless readings have been scripted (lsn.fallback)
+type sysClock struct {
+	mu     sync.Mutex
+	script []time.Time
+}
 
-func (sysClock) Epoch() uint64                                    { return 0 }
-func (sysClock) Now() time.Time                                   { return time.Now().UTC() }
-func (sysClock) Drift(d time.Duration) time.Duration              { return 0 }
-func (sysClock) Step(offset time.Duration)                        {}
-func (sysClock) Adjust(offset, duration time.Duration, f float64) {}
-func (sysClock) Sleep(d time.Duration)                            { time.Sleep(d) }
+func (c *sysClock) Epoch() uint64 { return 0 }
+func (c *sysClock) Now() time.Time {
+	c.mu.Lock()
+	defer c.mu.Unlock()
+	if len(c.script) > 0 {
+		t := c.script[0]
+		c.script = c.script[1:]
+		return t
+	}
+	return time.Now().UTC()
+}
+func (c *sysClock) Drift(d time.Duration) time.Duration              { return 0 }
+func (c *sysClock) Step(offset time.Duration)                        {}
+func (c *sysClock) Adjust(offset, duration time.Duration, f float64) {}
+func (c *sysClock) Sleep(d time.Duration)                            { time.Sleep(d) }
+func (c *sysClock) setScript(ts ...time.Time) {
+	c.mu.Lock()
+	c.script = append([]time.Time(nil), ts...)
+	c.mu.Unlock()
+}
+func (c *sysClock) pending() int {
+	c.mu.Lock()
+	defer c.mu.Unlock()
+	return len(c.script)
+}
 
 // ---- parent side ----
 
 // lsnParent starts the child that runs the listeners and returns the function
 // that waits for it and writes its cases.
-func lsnParent(a lib.Args, slow bool) func() {
+func lsnParent(a lib.Args, variant string) func() {
 	exe, err := os.Executable()
 	if err != nil {
 		panic(err)
@@ -84,7 +111,11 @@ func lsnParent(a lib.Args, slow bool) func() {
 	kind := "lsn.hist"
 	cmd := exec.Command(exe, args...)
 	cmd.Env = append(os.Environ(), lsnChildEnv+"=1", "USE_MOCK_KEYS=true")
-	if slow {
+	switch variant {
+	case "fallback":
+		kind = "lsn.fallback"
+		cmd.Env = append(os.Environ(), lsnChildEnv+"=fallback", "USE_MOCK_KEYS=true")
+	case "slow":
 		// the same process, but in a network namespace of its own whose loopback is rate-limited
 		kind = "lsn.slowlink"
 		setup := "ip link set lo up && tc qdisc add dev lo root tbf rate " + slowRate + " burst " + slowBurst + " latency 2s"
@@ -219,6 +250,10 @@ type lsnDrv struct {
 	ias   [lsnNIA]addr.IA
 	buf   []byte
 	lost  bool
+
+	provider *ntske.Provider
+	fl       *txFailLog
+	clk      *sysClock
 }
 
 // one scripted step.  lsn 0: IP, a = address, b = port.  lsn 1: SCION, a = ISD-AS, b = host,
@@ -251,10 +286,25 @@ func (s lstepS) String() string {
 		lib.I(int64(s.mode)), lib.I(int64(s.k)), lib.U(s.x), lib.U(s.y), lib.U(s.z))
 }
 
-func newLsnDrv(log *slog.Logger) *lsnDrv {
-	d := &lsnDrv{buf: make([]byte, 65536)}
-	timebase.RegisterClock(sysClock{})
+// clientRxStamps asks the kernel for software receive timestamps on a client socket (receive only:
+// transmit stamps would pile up in the socket's error queue).
+func clientRxStamps(c *net.UDPConn) {
+	rc, err := c.SyscallConn()
+	if err != nil {
+		return
+	}
+	rc.Control(func(fd uintptr) {
+		unix.SetsockoptInt(int(fd), unix.SOL_SOCKET, unix.SO_TIMESTAMPING_NEW,
+			unix.SOF_TIMESTAMPING_SOFTWARE|unix.SOF_TIMESTAMPING_RX_SOFTWARE)
+	})
+}
+
+func newLsnDrv() *lsnDrv {
+	d := &lsnDrv{buf: make([]byte, 65536), fl: &txFailLog{}, clk: &sysClock{}}
+	log := slog.New(d.fl)
+	timebase.RegisterClock(d.clk)
 	provider := ntske.NewProvider()
+	d.provider = provider
 	d.srv = lsnOwnAddr(6)
 	ctx := context.Background()
 	server.StartIPServer(ctx, log, &net.UDPAddr{IP: d.srv, Port: lsnIPPort}, 0, provider)
@@ -267,6 +317,7 @@ func newLsnDrv(log *slog.Logger) *lsnDrv {
 				panic(err)
 			}
 			c.SetReadBuffer(1 << 20)
+			clientRxStamps(c)
 			d.ip[i][j] = c
 		}
 	}
@@ -276,6 +327,7 @@ func newLsnDrv(log *slog.Logger) *lsnDrv {
 			panic(err)
 		}
 		c.SetReadBuffer(1 << 20)
+		clientRxStamps(c)
 		d.under[i] = c
 	}
 	d.hosts[0] = []byte{10, 1, 2, 3}
@@ -412,42 +464,50 @@ func (d *lsnDrv) send(s lstepS, payload []byte) bool {
 	return true
 }
 
-// recv returns the NTP payload of the next datagram on the step's socket.
-func (d *lsnDrv) recv(s lstepS) ([]byte, bool) {
+// recv returns the NTP header of the next datagram on the step's socket and the client's receive
+// stamp of it: the kernel's (software receive timestamp) or, when the kernel gave none, the clock
+// reading after the read - either way not earlier than the moment the kernel transmitted it.
+func (d *lsnDrv) recv(s lstepS) ([]byte, uint64, bool) {
 	c, _ := d.conn(s)
 	tmo := lsnReadTmo
 	if d.lost {
 		tmo = time.Second
 	}
 	c.SetReadDeadline(time.Now().Add(tmo))
-	buf := make([]byte, 2048)
-	n, _, err := c.ReadFromUDP(buf)
+	buf := make([]byte, 4096)
+	oob := make([]byte, udp.TimestampLen())
+	n, oobn, _, _, err := c.ReadMsgUDP(buf, oob)
+	at := time.Now().UTC()
 	if err != nil {
 		d.lost = true
-		return nil, false
+		return nil, 0, false
 	}
+	if ts, err := udp.TimestampFromOOBData(oob[:oobn]); err == nil {
+		at = ts
+	}
+	crx := t64num(ntp.Time64FromTime(at))
 	b := buf[:n]
 	if s.lsn == 1 {
 		pl, ok := scionPayload(b)
 		if !ok {
-			return nil, false
+			return nil, crx, false
 		}
 		b = pl
 	}
 	if len(b) < ntp.PacketLen {
-		return nil, false
+		return nil, crx, false
 	}
-	return b[:ntp.PacketLen], true
+	return b[:ntp.PacketLen], crx, true
 }
 
 // exchange sends one NTP payload as the step's client and returns the NTP payload of the reply.
-func (d *lsnDrv) exchange(s lstepS, payload []byte) ([]byte, bool) {
+func (d *lsnDrv) exchange(s lstepS, payload []byte) ([]byte, uint64, bool) {
 	c, _ := d.conn(s)
 	if n := d.drain(c); n > 0 {
 		lsnNote(fmt.Sprintf("c06: %d unexpected datagrams were queued on a client socket", n))
 	}
 	if !d.send(s, payload) {
-		return nil, false
+		return nil, 0, false
 	}
 	return d.recv(s)
 }
@@ -459,6 +519,67 @@ type lsnRep struct {
 	req              []byte
 	org, rx, tx, ref uint64
 	qorg, qrx, qtx   uint64
+	crx              uint64 // the client's receive stamp of the reply
+	unread           bool   // the listener reported that it could not read the transmit timestamp of this exchange
+	fb               bool   // the request reached the listener without kernel receive stamp
+	fv, fw           int64  // ... and these were the clock readings it was given (ns)
+}
+
+// wireRow is one observation of the kinds lsn.hist / lsn.slowlink / lsn.fallback.
+func wireRow(s lstepS, r lsnRep) string {
+	return lib.L(lib.I(s.ident()), lib.I(s.sock()), lib.U(r.qorg), lib.U(r.qrx), lib.U(r.qtx), lib.Bool(r.got),
+		lib.U(r.org), lib.U(r.rx), lib.U(r.tx), lib.U(r.ref), lib.U(r.crx), lib.Bool(r.unread),
+		lib.Bool(r.fb), lib.I(r.fv), lib.I(r.fw))
+}
+
+// ntsWrap turns a 48-byte request header into a real NTS-authenticated request: a cookie sealed
+// under the provider's current key, fresh session keys, unique identifier, authenticator.
+func (d *lsnDrv) ntsWrap(hdr []byte) []byte {
+	key := d.provider.Current()
+	c2s, s2c := make([]byte, 32), make([]byte, 32)
+	rand.Read(c2s)
+	rand.Read(s2c)
+	sc := ntske.ServerCookie{Algo: 15, S2C: s2c, C2S: c2s}
+	ec, err := sc.EncryptWithNonce(key.Value, key.ID)
+	if err != nil {
+		panic(err)
+	}
+	data := ntske.Data{C2sKey: c2s, S2cKey: s2c, Algo: 15}
+	data.Cookie = append(data.Cookie, ec.Encode())
+	pkt, _ := nts.NewRequestPacket(data)
+	buf := append([]byte(nil), hdr...)
+	nts.EncodePacket(&buf, &pkt)
+	return buf
+}
+
+// attribute marks the exchanges for which the listener reported a failed read of the transmit
+// timestamp: a report belongs to the last exchange whose software transmit time (the reference stamp
+// of its reply) is not later than the report.  Returns the number of reports.
+func attributeUnread(reps []lsnRep, fails []int64, echoAt []int64) int {
+	for _, l := range fails {
+		at, atTime := -1, int64(-1)
+		for i := range reps {
+			if !reps[i].got {
+				continue
+			}
+			t := nsOf64(t64of(reps[i].ref))
+			if reps[i].fb {
+				t = reps[i].fw - 1<<62 // scripted readings say nothing about real time: never chosen by time
+			}
+			if t <= l && t > atTime {
+				at, atTime = i, t
+			}
+		}
+		for _, t := range echoAt {
+			if t <= l && t > atTime {
+				at, atTime = -1, t
+			}
+		}
+		if at >= 0 {
+			reps[at].unread = true
+		}
+	}
+	return len(fails)
 }
 
 func (d *lsnDrv) runLsnHistory(steps []lstepS) {
@@ -472,18 +593,24 @@ func (d *lsnDrv) runLsnHistory(steps []lstepS) {
 	}
 	lsnEmit("CUR", "lsn.hist", "", args, "")
 	server.VerifResetTSS()
+	d.fl.take()
 	reps := make([]lsnRep, len(steps))
-	var outs []string
+	var echoAt []int64
+	nNTS := 0
 	nInter, nCross, nCrossInter, nDup, nScion, nIP, nOwn, nOtherSock := 0, 0, 0, 0, 0, 0, 0, 0
 	nEcho := 0
 	for i, s := range steps {
 		if s.mode == 5 {
 			// not an NTP exchange: an SCMP echo through the same listener loop (no row in the observations)
+			t := time.Now()
+			echoAt = append(echoAt, t.Unix()*1e9+int64(t.Nanosecond()))
 			if s.lsn == 1 && d.scmpEcho(s) {
 				nEcho++
 			}
 			continue
 		}
+		ntsReq := s.mode&16 != 0 // the same request, NTS-authenticated
+		s.mode &= 15
 		req := make([]byte, ntp.PacketLen)
 		req[0] = 4<<3 | 3 // version 4, client
 		ref := func() (lsnRep, bool) {
@@ -527,8 +654,13 @@ func (d *lsnDrv) runLsnHistory(steps []lstepS) {
 		binary.BigEndian.PutUint64(req[24:], org)
 		binary.BigEndian.PutUint64(req[32:], rx)
 		binary.BigEndian.PutUint64(req[40:], tx)
-		rep, ok := d.exchange(s, req)
-		r := lsnRep{got: ok, req: req, qorg: org, qrx: rx, qtx: tx}
+		wire := req
+		if ntsReq {
+			wire = d.ntsWrap(req)
+			nNTS++
+		}
+		rep, crx, ok := d.exchange(s, wire)
+		r := lsnRep{got: ok, req: req, qorg: org, qrx: rx, qtx: tx, crx: crx}
 		if ok {
 			r.ref, r.org, r.rx, r.tx = be64(rep[16:]), be64(rep[24:]), be64(rep[32:]), be64(rep[40:])
 		}
@@ -568,8 +700,15 @@ func (d *lsnDrv) runLsnHistory(steps []lstepS) {
 		if s.mode == 3 {
 			nDup++
 		}
-		outs = append(outs, lib.L(lib.I(s.ident()), lib.I(s.sock()), lib.U(org), lib.U(rx), lib.U(tx), lib.Bool(ok),
-			lib.U(r.org), lib.U(r.rx), lib.U(r.tx), lib.U(r.ref)))
+	}
+	// the listeners' own reports of transmit stamps they could not read (none on an ordinary loopback)
+	time.Sleep(2 * time.Millisecond)
+	nfail := attributeUnread(reps, d.fl.take(), echoAt)
+	var outs []string
+	for i, s := range steps {
+		if s.mode != 5 {
+			outs = append(outs, wireRow(s, reps[i]))
+		}
 	}
 	var tags []string
 	add := func(c bool, t string) {
@@ -585,8 +724,12 @@ func (d *lsnDrv) runLsnHistory(steps []lstepS) {
 	add(nIP > 0, "ip")
 	add(nOtherSock > 0, "othersock")
 	add(nEcho > 0, "scmp-echo")
+	add(nNTS > 0, "nts")
+	add(nfail > 0, "tx-unread")
 	add(nInter > 0 && nCross > 0, "nt")
-	lsnEmit("CASE", "lsn.hist", strings.Join(tags, ","), args, lib.L(outs...))
+	// with several listener goroutines a report cannot be attributed with certainty: the strict clauses
+	// are evaluated only when there was none
+	lsnEmit("CASE", "lsn.hist", strings.Join(tags, ","), args, lib.V(lib.L(outs...), lib.Bool(nfail == 0), lib.I(int64(nfail))))
 }
 
 // ---- generator ----
@@ -713,6 +856,9 @@ func genLsnHistory(r *lib.Rng, n int) []lstepS {
 		default:
 			s.mode = 0
 		}
+		if r.Intn(9) == 0 {
+			s.mode |= 16 // NTS-authenticated
+		}
 		steps = append(steps, s)
 	}
 	return steps
@@ -742,7 +888,7 @@ func parseLsnScript(sv string) []lstepS {
 func lsnChild(a lib.Args) {
 	lout = bufio.NewWriterSize(os.Stdout, 1<<20)
 	defer lout.Flush()
-	d := newLsnDrv(slog.New(slog.DiscardHandler))
+	d := newLsnDrv()
 	if a.Replay != "" {
 		for _, l := range lib.ReplayLines(a.Replay) {
 			if l[0] == "lsn.hist" && !d.lost {
